@@ -117,6 +117,8 @@ Local Notation without_prefix_loop := (without_prefix_loop M TH PG OV jk true).
 Local Notation without_suffix_ch_loop := (without_suffix_ch_loop M).
 Local Notation strip_digits_loop := (strip_digits_loop M).
 Local Notation replace_ch1 := (replace_ch1 M).
+Local Notation without_suffix_nc_loop := (without_suffix_nc_loop M).
+Local Notation without_prefix_nc_loop := (without_prefix_nc_loop M TH PG OV jk true).
 
 (* what every producer needs from the subject: the invariant and a size below LIM *)
 Definition subj_ok (s : str1) : Prop := inv s /\ slen s < LIM.
@@ -381,6 +383,46 @@ Proof.
   - split; [apply src_ok_lit|exact Bv].
   - cbn [src_lit snd]. rewrite Lc. exact B.
   - split; trivial.
+Qed.
+
+(* ---------------------------------------------------------------- the IgnoreCase loops *)
+
+Lemma without_suffix_nc_loop_spec f r suf max : inv r ->
+  inv (without_suffix_nc_loop f r suf max) /\ abs (without_suffix_nc_loop f r suf max) = strip_suffix_nc_fuel f (abs r) suf max.
+Proof.
+  revert r max. induction f as [|f IH]; intros r max I; cbn [StrModel.without_suffix_nc_loop strip_suffix_nc_fuel]; [split; trivial|].
+  destruct ((0 <? max) && ends_with_nocase (abs r) suf); [|split; trivial].
+  destruct (trunc_chars_spec r (lenN suf) I) as (I' & A'). rewrite <- A'. now apply IH.
+Qed.
+Lemma without_prefix_nc_loop_spec f r pre max : subj_ok r ->
+  inv (without_prefix_nc_loop f r pre max) /\ abs (without_prefix_nc_loop f r pre max) = strip_prefix_nc_fuel f (abs r) pre max.
+Proof.
+  revert r max. induction f as [|f IH]; intros r max Sb; cbn [StrModel.without_prefix_nc_loop strip_prefix_nc_fuel]; [split; [apply Sb|trivial]|].
+  destruct ((0 <? max) && starts_with_nocase (abs r) pre); [|split; [apply Sb|trivial]].
+  destruct (sub_spec r (lenN pre) NOLIMIT Sb) as (I' & A').
+  assert (Lr : lenN (abs r) < LIM) by (rewrite (lenN_abs r (proj1 Sb)); apply Sb).
+  rewrite (l0_sub_from _ _ Lr) in A'. rewrite <- A'. apply IH.
+  split; trivial. rewrite <- (lenN_abs _ I'), A', lenN_dropN. lia.
+Qed.
+Lemma strip_ch_prefix_nc_suffix l ch max : exists pre, l = pre ++ strip_ch_prefix_nc l ch max.
+Proof.
+  revert max. induction l as [|x l IH]; intros max; [exists []; reflexivity|]. cbn [strip_ch_prefix_nc].
+  destruct ((0 <? max) && ((x =? to_upper ch) || (x =? to_lower ch))); [|exists []; reflexivity].
+  destruct (IH (max - 1)) as [pre H]. exists (x :: pre). cbn [app]. now rewrite <- H.
+Qed.
+Lemma without_prefix_ch_nc_spec s ch max : subj_ok s ->
+  let r := ctor_sub (src_of s) (lenN (abs s) - lenN (strip_ch_prefix_nc (abs s) ch max)) NOLIMIT in
+  inv r /\ abs r = strip_ch_prefix_nc (abs s) ch max.
+Proof.
+  intros Sb r. unfold r.
+  destruct (sub_spec s (lenN (abs s) - lenN (strip_ch_prefix_nc (abs s) ch max)) NOLIMIT Sb) as (I' & A').
+  split; trivial. rewrite A'.
+  assert (Lr : lenN (abs s) < LIM) by (rewrite (lenN_abs s (proj1 Sb)); apply Sb).
+  rewrite (l0_sub_from _ _ Lr).
+  destruct (strip_ch_prefix_nc_suffix (abs s) ch max) as [pre H].
+  set (t := strip_ch_prefix_nc (abs s) ch max) in *. clearbody t.
+  rewrite H, lenN_app. replace (lenN pre + lenN t - lenN t) with (lenN pre) by lia.
+  apply dropN_app_exact.
 Qed.
 
 End Prod.
